@@ -1390,6 +1390,14 @@ class NPProxy:
             out[i] = a + step * i if step is not None else a
         if endpoint and num > 1:
             out[-1] = b
+        if dtype is not None and np.issubdtype(np.dtype(dtype), np.integer):
+            # numpy casts the computed grid to the integer type (truncation towards zero); decided for constant grids only
+            for i in range(num):
+                t = z3.simplify(out[i].t)
+                if not z3.is_rational_value(t):
+                    raise Inconclusive("integer dtype requested for a linspace over symbolic end points")
+                fr = fractions.Fraction(t.numerator_as_long(), t.denominator_as_long())
+                out[i] = S(z3.RealVal(int(fr)))  # int() truncates towards zero like the C cast
         out = out.view(SymArray)
         if retstep:
             return out, (step if step is not None else float("nan"))
